@@ -35,7 +35,15 @@ var verifDir = func() string {
 	return "/verif"
 }()
 
-const repoDir = "/repo"
+// repoDir is the repository under test: /repo, unless VERIF_REPO points at a
+// scratch copy (used to run the checks against a seeded change without touching
+// /repo).
+var repoDir = func() string {
+	if d := os.Getenv("VERIF_REPO"); d != "" {
+		return d
+	}
+	return "/repo"
+}()
 
 type propCfg struct {
 	Flavor      string // worker main package under cmd/
@@ -115,7 +123,7 @@ func buildWorker(cfg propCfg, runDir string) (string, error) {
 	if cfg.Rewrite != "" {
 		// simrewrite writes rewritten copies into runDir/rw and returns extra overlay entries.
 		rw := filepath.Join(runDir, "rw")
-		args := append([]string{"-passes", cfg.Rewrite, "-out", rw}, cfg.RewriteArgs...)
+		args := append([]string{"-passes", cfg.Rewrite, "-out", rw, "-repo", repoDir}, cfg.RewriteArgs...)
 		cmd := exec.Command(filepath.Join(verifDir, "bin", "simrewrite"), args...)
 		cmd.Env = goEnv()
 		var out bytes.Buffer
@@ -138,7 +146,24 @@ func buildWorker(cfg propCfg, runDir string) (string, error) {
 		return "", err
 	}
 	bin := filepath.Join(runDir, "worker")
-	cmd := exec.Command("go1.26.8", "build", "-overlay", ovPath, "-o", bin, "./cmd/"+cfg.Flavor)
+	buildArgs := []string{"build", "-overlay", ovPath, "-o", bin}
+	if repoDir != "/repo" {
+		// a go.mod whose replace directive points at the scratch copy
+		gm, err := os.ReadFile(filepath.Join(verifDir, "harness", "go.mod"))
+		if err != nil {
+			return "", err
+		}
+		alt := filepath.Join(runDir, "alt.mod")
+		if err := os.WriteFile(alt, []byte(strings.Replace(string(gm), "=> /repo", "=> "+repoDir, 1)), 0o644); err != nil {
+			return "", err
+		}
+		if gs, err := os.ReadFile(filepath.Join(verifDir, "harness", "go.sum")); err == nil {
+			os.WriteFile(filepath.Join(runDir, "alt.sum"), gs, 0o644)
+		}
+		buildArgs = append(buildArgs, "-modfile="+alt)
+	}
+	buildArgs = append(buildArgs, "./cmd/"+cfg.Flavor)
+	cmd := exec.Command("go1.26.8", buildArgs...)
 	cmd.Dir = filepath.Join(verifDir, "harness")
 	cmd.Env = goEnv()
 	out, err := cmd.CombinedOutput()
@@ -237,7 +262,7 @@ func run(id, mode string, cfg propCfg, seed uint64, runDir string) int {
 					"-replaydir", filepath.Join(verifDir, "replays"), "-known", filepath.Join(verifDir, "known_findings.json"),
 					"-first", fmt.Sprint(w), "-stride", fmt.Sprint(workers), "-count", fmt.Sprint(count),
 					"-deadline", perSeedDL.String(), "-out", of)
-				cmd.Env = append(os.Environ(), "GOMAXPROCS=2", "VERIF_RW_DIR="+filepath.Join(runDir, "rw"))
+				cmd.Env = append(os.Environ(), "GOMAXPROCS=2", "VERIF_RW_DIR="+filepath.Join(runDir, "rw"), "VERIF_REPO="+repoDir)
 				var eb bytes.Buffer
 				cmd.Stderr = &eb
 				cmd.Stdout = &eb
